@@ -660,6 +660,10 @@ func errorDisciplineGen(call *ssa.Call, significant func(*ssa.Call) bool) string
 						}
 					}
 				}
+				if nilEdge < 0 {
+					// `if done(val, ok, err) { return …, err }`: a helper whose result says that err is nil
+					nilEdge = predicateNilEdge(x.Cond, func(arg ssa.Value) bool { return sameErr(arg, errVal) })
+				}
 				for idx, s := range b.Succs {
 					if idx == nilEdge {
 						continue
@@ -1048,6 +1052,38 @@ func runSignal(c *Ctx, r *Reporter) {
 			}
 		}
 	}
+	// inspectsSignal: the value is examined for a break/return signal — asserted, handed to isBreak/isReturn, or handed
+	// to a helper of the evaluator that does so with its parameter (whileDone(val, ok, err))
+	var inspectsSignal func(v ssa.Value, depth int) bool
+	inspectsSignal = func(v ssa.Value, depth int) bool {
+		refs := v.Referrers()
+		if refs == nil || depth > 2 {
+			return false
+		}
+		for _, ref := range *refs {
+			switch x := ref.(type) {
+			case *ssa.TypeAssert:
+				return true
+			case *ssa.Phi:
+				if inspectsSignal(x, depth+1) {
+					return true
+				}
+			case *ssa.Call:
+				sc := x.Call.StaticCallee()
+				if sc == isBreakSSA || sc == isReturnSSA {
+					return true
+				}
+				if sc != nil && sc.Pkg == ei.eval.Pkg && len(sc.Blocks) > 0 && sc != ei.eval {
+					for i, a := range x.Call.Args {
+						if a == v && i < len(sc.Params) && inspectsSignal(sc.Params[i], depth+1) {
+							return true
+						}
+					}
+				}
+			}
+		}
+		return false
+	}
 	dropAllowed := map[string]bool{"(*Evaluator).HandleEvent": true, "(*Evaluator).Eval": true}
 	for _, fn := range ei.funcs {
 		n := 0
@@ -1062,18 +1098,7 @@ func runSignal(c *Ctx, r *Reporter) {
 				v := firstResult(call)
 				used := false
 				if v != nil {
-					if refs := v.Referrers(); refs != nil {
-						for _, ref := range *refs {
-							switch x := ref.(type) {
-							case *ssa.TypeAssert:
-								used = true
-							case *ssa.Call:
-								if sc := x.Call.StaticCallee(); sc == isBreakSSA || sc == isReturnSSA {
-									used = true
-								}
-							}
-						}
-					}
+					used = inspectsSignal(v, 0)
 				}
 				if v != nil && feedsReturn(v, 0) {
 					used = true
@@ -1137,7 +1162,49 @@ func runSignal(c *Ctx, r *Reporter) {
 		}
 		pos := p.Rel(instrPos(loopCall))
 		plain, signal, tested := false, "", false
-		for _, b := range fn.Blocks {
+		// the break test may live in a helper that is handed the block result and whose own result the loop evaluator
+		// returns (`return whileResult(val), err`)
+		scanBlocks := append([]*ssa.BasicBlock{}, fn.Blocks...)
+		if lv := firstResult(loopCall); lv != nil {
+			carriers := map[ssa.Value]bool{lv: true}
+			for changed := true; changed; {
+				changed = false
+				for _, b := range fn.Blocks {
+					for _, ins := range b.Instrs {
+						if phi, ok := ins.(*ssa.Phi); ok && !carriers[phi] {
+							for _, e := range phi.Edges {
+								if carriers[e] {
+									carriers[phi] = true
+									changed = true
+								}
+							}
+						}
+					}
+				}
+			}
+			for _, b := range fn.Blocks {
+				for _, ins := range b.Instrs {
+					hc, ok := ins.(*ssa.Call)
+					if !ok || hc.Call.StaticCallee() == nil || hc.Call.StaticCallee().Pkg != fn.Pkg || len(hc.Call.StaticCallee().Blocks) == 0 {
+						continue
+					}
+					h := hc.Call.StaticCallee()
+					if h == isBreakSSA || h == isReturnSSA || h == ei.eval || ei.reach[h] {
+						continue
+					}
+					gets := false
+					for _, a := range hc.Call.Args {
+						if carriers[a] {
+							gets = true
+						}
+					}
+					if gets && feedsReturn(hc, 0) && isNamed(h.Signature.Results().At(0).Type(), pkg.PkgPath, "value") {
+						scanBlocks = append(scanBlocks, h.Blocks...)
+					}
+				}
+			}
+		}
+		for _, b := range scanBlocks {
 			if len(b.Instrs) == 0 {
 				continue
 			}
